@@ -361,6 +361,7 @@ def run_check(tier: str, seed: int, runs: int | None = None, parallel: int | Non
         exit_code = EXIT_OK
         reported = set()
         new_violation_lines = []
+        unreproduced = []
         for i, history, v in found:
             k = jdump(vkey(v))
             if k in reported:
@@ -381,12 +382,16 @@ def run_check(tier: str, seed: int, runs: int | None = None, parallel: int | Non
                 vio = replay_history(small, hashseed=slot.S.hashseed, hashseed_ref=slot.R.hashseed)
                 confirms.append(sorted(jdump(vkey(x)) for x in vio if vkey(x) == vkey(v2)))
             if not all(confirms) or any(c != confirms[0] for c in confirms):
-                raise HarnessError(f"violation in run {i} does not replay identically in cold interpreters: {v2} / {confirms}")
+                unreproduced.append(f"run {i}: {jdump(v2)[:300]} / {confirms}")
+                continue
             tag = f"{i}-{len(new_violation_lines)}"
             path = write_replay(PROP, seed, tag, {"hashseeds": {"session": slot.S.hashseed, "reference": slot.R.hashseed}, "history": small, "violation": v2, "violation_key": vkey(v2), "original_ops": len(history["ops"]), "minimised_ops": len(small["ops"]), "shrink_candidates": spent, "replay_cmd": f"./check replay replays/{PROP}-{seed}-{tag}.json"})
             new_violation_lines.append(f"VIOLATION property={PROP} replay={path}")
             log(f"  violation: {jdump(v2)}")
             exit_code = EXIT_VIOLATION
+        from sim.c01_driver import _unreproduced_verdict
+
+        _unreproduced_verdict(unreproduced, new_violation_lines)
     finally:
         engine.close()
 
